@@ -28,6 +28,12 @@ UW = dict(WIDTH, usize=64)
 class EP(SP):
     """+ `while cond { }`, `unsafe { }` (transparent)"""
 
+    def unary(self):
+        if self.at("!"):
+            self.eat("op")
+            return ("not", self.unary())
+        return SP.unary(self)
+
     def block(self):
         self.eat("op", "{")
         j = matching(self.t, self.i - 1)
@@ -67,6 +73,9 @@ class EP(SP):
         return stmts, tail
 
     def stmt(self):
+        if self.peek() == ("id", "break") and (self.peek(1) == ("op", ";") or self.peek(1)[0] == "eof"):
+            self.eat("id")
+            return ("break",)
         if self.peek() == ("id", "while"):
             self.eat("id")
             j = self.i
@@ -93,6 +102,8 @@ class EP(SP):
 
 class EffFn(Fn):
     PARSER = EP
+    WPARAMS = "{σ : Type} (next_u64 : σ → BitVec 64 × σ)"
+    WARGS = "next_u64"
     CMP = {">=": "≥", "<=": "≤", "<": "<", ">": ">"}
 
     def __init__(self, ns, name, body_toks, rng_name, buf_name):
@@ -117,7 +128,7 @@ class EffFn(Fn):
             if isinstance(e, tuple):
                 if e[0] == "mcall" and e[1] == ("id", self.rng):
                     add("\0rng")
-                if (e[0] == "call" and e[1].endswith("copy_nonoverlapping")) or (e[0] == "mcall" and e[2] == "write"):
+                if self.is_store(e):
                     add("\0log")
                 for x in e[1:]:
                     if isinstance(x, (tuple, list)):
@@ -159,11 +170,16 @@ class EffFn(Fn):
         acc[:] = out
         return acc
 
+    LOGTY = "List PtrWrite"
+
+    def is_store(self, e):
+        return (e[0] == "call" and e[1].endswith("copy_nonoverlapping")) or (e[0] == "mcall" and e[2] == "write")
+
     def state_types(self, names):
         out = []
         for n in names:
             ty = self.env[n][2]
-            out.append({"obj": "σ", "log": "List PtrWrite", "bool": "Bool"}.get(ty[0]) or lean_ty(ty))
+            out.append({"obj": "σ", "log": self.LOGTY, "bool": "Bool"}.get(ty[0]) or lean_ty(ty))
         return out
 
     def typed(self, e):
@@ -261,22 +277,22 @@ class EffFn(Fn):
                 text = "\n".join(inner) + c
                 free = [(v[1], lean_ty(v[2])) for n, v in saved_env.items()
                         if v[0] == "var" and v[2][0] == "u" and v[1] not in st and re.search(r"\b%s\b" % re.escape(v[1]), text)]
-                if re.search(r"\bbuf_len\b", text):
+                if re.search(r"\bbuf_len\b", text) and "buf_len" not in st:
                     free.append(("buf_len", "BitVec 64"))
                 self.nwhile += 1
                 wname = "%s_while%d" % (self.name, self.nwhile)
-                self.aux.append(
-                    "def %s {σ : Type} (next_u64 : σ → BitVec 64 × σ) %s : Nat → %s → %s\n"
+                self.aux.append((
+                    "def %s " + self.WPARAMS + " %s : Nat → %s → %s\n"
                     "  | 0, st =>\n"
                     "    let %s := st\n"
                     "    (%s)\n"
                     "  | fuel + 1, st =>\n"
                     "    let %s := st\n"
-                    "    if %s then\n%s\n      %s next_u64 %s fuel %s\n    else st\n" % (
+                    "    if %s then\n%s\n      %s " + self.WARGS + " %s fuel %s\n    else st\n") % (
                         wname, " ".join("(%s : %s)" % f for f in free), " × ".join(tys), " × ".join(tys),
                         tup, ", ".join(x if x != "diverged" else "true" for x in st),
                         tup, c, "\n".join("      " + l for l in inner), wname, " ".join(f[0] for f in free), tup))
-                self.lines.append("let %s := %s next_u64 %s (2 ^ 64) %s" % (tup, wname, " ".join(f[0] for f in free), tup))
+                self.lines.append("let %s := %s %s %s (2 ^ 64) %s" % (tup, wname, self.WARGS, " ".join(f[0] for f in free), tup))
             elif k == "if":
                 cond, then, els = s[1], s[2], s[3]
                 names = [n for n in self.targets([s], []) if n in self.env]
@@ -476,3 +492,641 @@ def generate_block(repo, out_dir, write):
 if __name__ == "__main__":
     print(rng_fill_bytes(os.environ.get("VERIF_REPO", "/repo")))
     print(block_methods(os.environ.get("VERIF_REPO", "/repo")))
+
+
+# ------------------------------------------------------------------------------------------------ BlockRngImpl::fill_bytes (src/rng/block.rs)
+def rewrite_open_slices(toks):
+    """`NAME[E..]` -> `__slice_from(NAME, E)` (the expression parser has no range syntax)"""
+    out, i = [], 0
+    while i < len(toks):
+        t = toks[i]
+        if t == ("op", "[") and out and out[-1][0] == "id":
+            j = matching(toks, i)
+            if toks[j - 1] == ("op", ".."):
+                name = out.pop()
+                out += [("id", "__slice_from"), ("op", "("), name, ("op", ",")] + rewrite_open_slices(toks[i + 1:j - 1]) + [("op", ")")]
+                i = j + 1
+                continue
+        out.append(t)
+        i += 1
+    return out
+
+
+class BlockFillFn(EffFn):
+    """`BlockRngImpl::fill_bytes`.  The destination slice `buf` is the pair (`buf_off`, `buf_len`) of 64-bit values (offset from the start of
+    the caller's buffer, length): `buf.len()` is `buf_len`, `buf = &mut buf[n..]` adds n to the offset and subtracts it from the length and sets
+    the flag `oob` when n exceeds the length (Rust would panic).  A shared slice of the block (`bytes(&self.random)`, `&random[start..]`) is the
+    pair (offset into the block, length).  `self.index` is `self_index` (u32), the block size `BLOCK`.  Events, in program order:
+    `FillEv.genTmp` / `genRandom` (`self.state.generate(&mut tmp)` / `(&mut self.random)`), `copyTmp dst n` (n bytes from the start of `tmp`
+    to destination offset dst), `copyRandom src dst n` (n bytes from offset src of the block).  `while` and `loop` are recursive functions with
+    fuel 2^64 and a `diverged` flag; a `break` must be the last statement of a branch of the last `if` of the loop body."""
+    WPARAMS = "(BLOCK : BitVec 64)"
+    WARGS = "BLOCK"
+
+    def __init__(self, name, body_toks):
+        EffFn.__init__(self, "Urandom.Generated.Effect.block", name, rewrite_open_slices(body_toks), "\0none", "buf")
+        del self.env["\0none"]
+        self.env["self_index"] = ("var", "self_index", ("u", 32))
+        self.env["buf_off"] = ("var", "buf_off", ("u", 64))
+        self.env["buf_len"] = ("var", "buf_len", ("u", 64))
+        self.env["oob"] = ("var", "oob", ("bool",))
+        self.env["brk"] = ("var", "brk", ("bool",))
+        self.slices = {}          # rust name -> (lean offset text, lean length text)   (slices of the block)
+        self.tmps = set()
+        self.nloop = 0
+
+    def is_self(self, e, field):
+        return e == ("field", ("id", "self"), field)
+
+    def is_block(self, e):
+        while e[0] in ("ref", "deref"):
+            e = e[2] if e[0] == "ref" else e[1]
+        return self.is_self(e, "random")
+
+    def is_tmp(self, e):
+        while e[0] in ("ref", "deref", "cast"):
+            e = e[2] if e[0] == "ref" else e[1]
+        return e[0] == "id" and e[1] in self.tmps
+
+    # ---- what a statement list changes
+    def targets(self, stmts, acc):
+        found = []
+
+        def add(n):
+            if n not in found:
+                found.append(n)
+
+        def walk_e(e):
+            if isinstance(e, tuple):
+                if (e[0] == "mcall" and e[2] == "generate") or (e[0] == "call" and e[1].endswith("copy_nonoverlapping")):
+                    add("log")
+                if e[0] == "call" and e[1] == "__slice_from":
+                    add("oob")
+                for x in e[1:]:
+                    if isinstance(x, (tuple, list)):
+                        for y in (x if isinstance(x, list) else [x]):
+                            walk_e(y)
+
+        def walk(ss, declared):
+            for s in ss:
+                if s[0] == "assign":
+                    if self.is_self(s[1], "index"):
+                        add("self_index")
+                    elif s[1] == ("id", "buf"):
+                        add("buf_off")
+                        add("buf_len")
+                    else:
+                        n = self.base_name(s[1])
+                        if n not in declared:
+                            add(n)
+                    walk_e(s[2])
+                elif s[0] == "let":
+                    walk_e(s[2])
+                    if s[1][0] == "pid":
+                        declared.add(s[1][1])
+                elif s[0] == "expr":
+                    walk_e(s[1])
+                elif s[0] == "while":
+                    walk(s[2][1], set(declared))
+                    add("diverged")
+                elif s[0] == "loop":
+                    walk(s[1][1], set(declared))
+                    add("diverged")
+                elif s[0] == "if":
+                    walk(s[2][1], set(declared))
+                    if s[3]:
+                        walk(s[3][1], set(declared))
+                elif s[0] == "break":
+                    add("brk")
+                else:
+                    raise TranslateError("statement %r" % (s[0],))
+        walk(stmts, set())
+        order = ["self_index", "buf_off", "buf_len"]
+        out = [n for n in found if n not in order + ["log", "oob", "diverged", "brk"]] + [n for n in order + ["log", "oob", "diverged", "brk"] if n in found]
+        acc[:] = out
+        return acc
+
+    def state_types(self, names):
+        return [{"log": "List FillEv", "bool": "Bool"}.get(self.env[n][2][0]) or lean_ty(self.env[n][2]) for n in names]
+
+    def typed(self, e):
+        if self.is_self(e, "index"):
+            return ("u", 32)
+        if e[0] == "call" and (e[1].endswith("size_of_val") or e[1] in ("usize::min", "usize::max")):
+            return ("u", 64)
+        if e[0] == "mcall" and e[2] == "len":
+            return ("u", 64)
+        return EffFn.typed(self, e)
+
+    def expr(self, e, expect=None):
+        if self.is_self(e, "index"):
+            return "self_index", ("u", 32)
+        if e[0] == "call" and e[1].endswith("size_of_val") and len(e[2]) == 1 and (self.is_block(e[2][0]) or self.is_tmp(e[2][0])):
+            return "BLOCK", ("u", 64)
+        if e[0] == "mcall" and e[2] == "len" and not e[3] and e[1][0] == "id":
+            if e[1][1] == "buf":
+                return "buf_len", ("u", 64)
+            if e[1][1] in self.slices:
+                return self.slices[e[1][1]][1], ("u", 64)
+        if e[0] == "call" and e[1] in ("usize::min", "usize::max") and len(e[2]) == 2:
+            a, _ = self.expr(e[2][0], ("u", 64))
+            b, _ = self.expr(e[2][1], ("u", 64))
+            return "(if %s %s %s then %s else %s)" % (a, "≤" if e[1].endswith("min") else "≥", b, a, b), ("u", 64)
+        return EffFn.expr(self, e, expect)
+
+    def dst_is_buf(self, e):
+        return e == ("cast", ("mcall", ("id", "buf"), "as_mut_ptr", []), ["*", "mut", "u8"])
+
+    def run(self, stmts):
+        for idx, s in enumerate(stmts):
+            k = s[0]
+            if k == "let" and s[1][0] == "pid" and s[2][0] == "call" and s[2][1].endswith("::default") and not s[2][2]:
+                self.tmps.add(s[1][1])                                               # let mut tmp = T::Output::default();
+            elif k == "let" and s[1][0] == "pid" and s[2][0] == "call" and s[2][1] == "bytes" and len(s[2][2]) == 1 and self.is_block(s[2][2][0]):
+                self.slices[s[1][1]] = ("0#64", "BLOCK")                              # let random = bytes(&self.random);
+            elif k == "let" and s[1][0] == "pid" and s[2][0] == "ref" and s[2][2][0] == "call" and s[2][2][1] == "__slice_from":
+                base, start = s[2][2][2]                                               # let src = &random[start..];
+                if not (base[0] == "id" and base[1] in self.slices):
+                    raise TranslateError("slice of %r" % (base,))
+                o, l = self.slices[base[1]]
+                st, _ = self.expr(start, ("u", 64))
+                n = s[1][1]
+                self.lines.append("let oob := oob || decide (%s > %s)" % (st, l))
+                self.lines.append("let %s_off := (%s + %s)" % (n, o, st))
+                self.lines.append("let %s_len := (%s - %s)" % (n, l, st))
+                self.slices[n] = ("%s_off" % n, "%s_len" % n)
+                self.env["%s_off" % n] = ("var", "%s_off" % n, ("u", 64))
+                self.env["%s_len" % n] = ("var", "%s_len" % n, ("u", 64))
+            elif k == "assign" and s[1] == ("id", "buf"):
+                e = s[2]                                                               # buf = &mut buf[n..];
+                if not (e[0] == "ref" and e[2][0] == "call" and e[2][1] == "__slice_from" and e[2][2][0] == ("id", "buf")):
+                    raise TranslateError("assignment to buf: %r" % (e,))
+                n, _ = self.expr(e[2][2][1], ("u", 64))
+                self.lines.append("let oob := oob || decide (%s > buf_len)" % n)
+                self.lines.append("let buf_off := (buf_off + %s)" % n)
+                self.lines.append("let buf_len := (buf_len - %s)" % n)
+            elif k == "assign" and self.is_self(s[1], "index"):
+                e = s[2]
+                if e[0] == "bin" and e[2] == s[1]:
+                    r, _ = self.expr(e[3], ("u", 32))
+                    t = "(self_index %s %s)" % ({"+": "+", "-": "-"}[e[1]], r)
+                else:
+                    t, _ = self.expr(e, ("u", 32))
+                self.lines.append("let self_index := %s" % t)
+            elif k == "expr" and s[1][0] == "mcall" and s[1][2] == "generate" and self.is_self(s[1][1], "state") and len(s[1][3]) == 1:
+                if self.is_block(s[1][3][0]):
+                    self.lines.append("let log := log ++ [FillEv.genRandom]")
+                elif self.is_tmp(s[1][3][0]):
+                    self.lines.append("let log := log ++ [FillEv.genTmp]")
+                else:
+                    raise TranslateError("generate into %r" % (s[1][3][0],))
+            elif k == "expr" and s[1][0] == "call" and s[1][1].endswith("copy_nonoverlapping"):
+                src, dst, n = s[1][2]
+                if not self.dst_is_buf(dst):
+                    raise TranslateError("copy destination %r" % (dst,))
+                nt, _ = self.expr(n, ("u", 64))
+                if src[0] == "cast" and self.is_tmp(src):
+                    self.lines.append("let log := log ++ [FillEv.copyTmp buf_off %s]" % nt)
+                elif src[0] == "mcall" and src[2] == "as_ptr" and src[1][0] == "id" and src[1][1] in self.slices:
+                    self.lines.append("let log := log ++ [FillEv.copyRandom %s buf_off %s]" % (self.slices[src[1][1]][0], nt))
+                    self.lines.append("let oob := oob || decide (%s > %s)" % (nt, self.slices[src[1][1]][1]))
+                else:
+                    raise TranslateError("copy source %r" % (src,))
+                self.lines.append("let oob := oob || decide (%s > buf_len)" % nt)
+            elif k == "break":
+                if idx != len(stmts) - 1:
+                    raise TranslateError("break is not the last statement of its block")
+                self.lines.append("let brk := true")
+            elif k == "loop":
+                body = s[1][1]
+                if not body or body[-1][0] != "if":
+                    raise TranslateError("loop body does not end in an if")
+                names = [n for n in self.targets([s], []) if n in self.env]
+                if "brk" not in names:
+                    raise TranslateError("loop without break")
+                st, tys = self.state_names(names), self.state_types(names)
+                tup = "(%s)" % ", ".join(st)
+                saved_env, saved_lines, saved_slices = dict(self.env), self.lines, dict(self.slices)
+                self.lines = []
+                self.run(body)
+                inner = self.lines
+                self.lines, self.env, self.slices = saved_lines, saved_env, saved_slices
+                self.nloop += 1
+                lname = "%s_loop%d" % (self.name, self.nloop)
+                self.aux.append((
+                    "def %s (BLOCK : BitVec 64) : Nat → %s → %s\n"
+                    "  | 0, st =>\n    let %s := st\n    (%s)\n"
+                    "  | fuel + 1, st =>\n    let %s := st\n%s\n    if brk then %s else %s BLOCK fuel %s\n") % (
+                        lname, " × ".join(tys), " × ".join(tys), tup, ", ".join(x if x != "diverged" else "true" for x in st),
+                        tup, "\n".join("    " + l for l in inner), tup, lname, tup))
+                self.lines.append("let brk := false")
+                self.lines.append("let %s := %s BLOCK (2 ^ 64) %s" % (tup, lname, tup))
+            else:
+                EffFn.run(self, [s])
+
+    def lean(self):
+        self.lines, self.result, self.aux = [], self.tail, []
+        self.env["log"] = ("var", "log", ("log",))
+        for l in ("let log : List FillEv := []", "let diverged := false", "let oob := false", "let brk := false", "let buf_off := 0#64", "let buf_len := buf_len0"):
+            self.lines.append(l)
+        self.run(self.stmts)
+        if self.result is not None:
+            raise TranslateError("a result value")
+        body = "\n".join("  " + l for l in self.lines + ["(log, self_index, oob, diverged)"])
+        return "".join(a + "\n" for a in self.aux) + (
+            "def %s (self_index : BitVec 32) (BLOCK : BitVec 64) (buf_len0 : BitVec 64) : List FillEv × BitVec 32 × Bool × Bool :=\n%s\n" % (self.name, body))
+
+
+def block_fill(repo):
+    raw, _ = parse_fns(open(os.path.join(repo, "src/rng/block.rs")).read())
+    cands = [f for f in raw.get("fill_bytes", []) if f[0] and f[0][0][0] == "self"]
+    if len(cands) != 1:
+        raise TranslateError("src/rng/block.rs: fill_bytes not found (or not unique)")
+    return "namespace block\n" + BlockFillFn("fill_bytes", cands[0][2]).lean() + "end block\n"
+
+
+# ------------------------------------------------------------------------------------------------ System<N>::next_u32 / next_u64 (src/rng/system.rs)
+class SysFn(EffFn):
+    """`impl Rng for System<N>`: `next_u32` / `next_u64` as event logs, in program order: `SysEv.setIndex v` (an assignment to `self.index` -
+    its position relative to the fetch matters, a failing fetch panics), `SysEv.fetch` (`getentropy(&mut self.random)`), `SysEv.load i`
+    (the read of the word `self.random[i]`; out of bounds panics).  Second component: the indices of the words that make up the result, LOW word
+    first (`value` / `high << 32 | low`).  `N` is a 64-bit parameter."""
+
+    def __init__(self, name, body_toks):
+        EffFn.__init__(self, "Urandom.Generated.Effect.system", name, body_toks, "\0none", "\0none")
+        del self.env["\0none"]
+        self.env["self_index"] = ("var", "self_index", ("u", 32))
+        self.env["N"] = ("var", "N", ("u", 64))
+        self.loads = {}          # local name -> lean text of the index it was loaded from
+
+    def is_self(self, e, field):
+        return e == ("field", ("id", "self"), field)
+
+    def is_load(self, e):
+        while e[0] == "cast" and e[2] == ["u64"]:
+            e = e[1]
+        return e if (e[0] == "index" and self.is_self(e[1], "random")) else None
+
+    def targets(self, stmts, acc):
+        def has_ev(e):
+            return isinstance(e, tuple) and ((e[0] == "call" and e[1] == "getentropy")
+                                             or any(has_ev(y) for x in e[1:] if isinstance(x, (tuple, list)) for y in (x if isinstance(x, list) else [x])))
+
+        def walk(ss):
+            for s in ss:
+                if s[0] == "assign":
+                    if self.is_self(s[1], "index"):
+                        if "log" not in acc:
+                            acc.append("log")
+                    else:
+                        n = self.base_name(s[1])
+                        if n not in acc:
+                            acc.append(n)
+                if s[0] == "expr" and has_ev(s[1]) and "log" not in acc:
+                    acc.append("log")
+                if s[0] == "let" and self.is_load(s[2]) is not None and "log" not in acc:
+                    acc.append("log")
+                if s[0] == "if":
+                    walk(s[2][1])
+                    if s[3]:
+                        walk(s[3][1])
+                if s[0] in ("while", "loop", "for"):
+                    raise TranslateError("a loop in %s" % self.name)
+        walk(stmts)
+        if "log" in acc:
+            acc.remove("log")
+            acc.append("log")
+        return acc
+
+    def state_types(self, names):
+        return [{"log": "List SysEv"}.get(self.env[n][2][0]) or lean_ty(self.env[n][2]) for n in names]
+
+    def typed(self, e):
+        if self.is_self(e, "index"):
+            return ("u", 32)
+        return EffFn.typed(self, e)
+
+    def expr(self, e, expect=None):
+        if self.is_self(e, "index"):
+            return "self_index", ("u", 32)
+        if e[0] == "unary" and e[1] == "!" and e[2] == ("num", 0) and expect and expect[0] == "u":
+            return "%d#%d" % ((1 << expect[1]) - 1, expect[1]), expect
+        if e[0] == "not" and e[1] == ("num", 0) and expect and expect[0] == "u":
+            return "%d#%d" % ((1 << expect[1]) - 1, expect[1]), expect
+        return EffFn.expr(self, e, expect)
+
+    def run(self, stmts):
+        for s in stmts:
+            if s[0] == "assign" and self.is_self(s[1], "index"):
+                t, _ = self.expr(s[2], ("u", 32))
+                self.lines.append("let log := log ++ [SysEv.setIndex %s]" % t)
+            elif s[0] == "expr" and s[1][0] == "call" and s[1][1] == "getentropy" and len(s[1][2]) == 1 and s[1][2][0] in (("ref", True, ("field", ("id", "self"), "random")), ("ref", "mut", ("field", ("id", "self"), "random"))):
+                self.lines.append("let log := log ++ [SysEv.fetch]")
+            elif s[0] == "let" and s[1][0] == "pid" and self.is_load(s[2]) is not None:
+                ld = self.is_load(s[2])
+                t, _ = self.expr(ld[2], ("u", 64))
+                self.loads[s[1][1]] = t
+                self.lines.append("let log := log ++ [SysEv.load %s]" % t)
+            else:
+                EffFn.run(self, [s])
+
+    def lean(self, width):
+        self.lines, self.result, self.aux = [], self.tail, []
+        self.env["log"] = ("var", "log", ("log",))
+        self.lines.append("let log : List SysEv := []")
+        self.run(self.stmts)
+        r = self.result
+        if r is None:
+            raise TranslateError("%s: no result" % self.name)
+        if width == 32:
+            if not (r[0] == "id" and r[1] in self.loads):
+                raise TranslateError("%s: the result is not the loaded word" % self.name)
+            words = [self.loads[r[1]]]
+        else:
+            # high << 32 | low
+            ok = r[0] == "bin" and r[1] == "|"
+            hi = lo = None
+            if ok:
+                for x, y in ((r[2], r[3]), (r[3], r[2])):
+                    if x[0] == "bin" and x[1] == "<<" and x[3] == ("num", 32) and x[2][0] == "id" and x[2][1] in self.loads and y[0] == "id" and y[1] in self.loads:
+                        hi, lo = x[2][1], y[1]
+            if hi is None:
+                raise TranslateError("%s: the result is not `high << 32 | low` of two loaded words" % self.name)
+            words = [self.loads[lo], self.loads[hi]]
+        # the loads happen after the last event (the statements between them and the end only assign the index)
+        body = "\n".join("  " + l for l in self.lines + ["(log, [%s])" % ", ".join(words)])
+        return "def %s (self_index : BitVec 32) (N : BitVec 64) : List SysEv × List (BitVec 64) :=\n%s\n" % (self.name, body)
+
+
+def system_methods(repo):
+    raw, _ = parse_fns(open(os.path.join(repo, "src/rng/system.rs")).read())
+    helpers = {n: v for n, v in raw.items() if n not in ("next_u32", "next_u64", "fill_bytes", "jump", "new")}
+    if helpers:
+        raise TranslateError("src/rng/system.rs: helper functions %s (not inlined by this translator)" % sorted(helpers))
+    out = ["namespace system"]
+    for m, w in (("next_u32", 32), ("next_u64", 64)):
+        cands = [f for f in raw.get(m, []) if f[0] and f[0][0][0] == "self"]
+        if len(cands) != 1:
+            raise TranslateError("src/rng/system.rs: %s not found (or not unique)" % m)
+        out.append(SysFn(m, cands[0][2]).lean(w))
+    out.append("end system\n")
+    return "\n".join(out)
+
+
+# ------------------------------------------------------------------------------------------------ Random::shuffle (src/random.rs)
+class ShufFn(EffFn):
+    """`Random::shuffle`: `self.index(n)` is a draw from an abstract generator (`index : σ → BitVec 64 → BitVec 64 × σ`), `slice.len()` the
+    parameter `slice_len`, `slice.swap(a, b)` the log entry `(a, b)`; result: (swaps in program order, generator afterwards, diverged)."""
+    WPARAMS = "{σ : Type} (index : σ → BitVec 64 → BitVec 64 × σ)"
+    WARGS = "index"
+    LOGTY = "List (BitVec 64 × BitVec 64)"
+
+    def __init__(self, name, body_toks):
+        EffFn.__init__(self, "Urandom.Generated.Effect.random", name, body_toks, "self", "slice")
+
+    def is_store(self, e):
+        return e[0] == "mcall" and e[1] == ("id", "slice") and e[2] == "swap"
+
+    def typed(self, e):
+        if e[0] == "mcall" and e[1] == ("id", "slice") and e[2] == "len":
+            return ("u", 64)
+        if e[0] == "mcall" and e[1] == ("id", "self"):
+            return ("u", 64)
+        return EffFn.typed(self, e)
+
+    def expr(self, e, expect=None):
+        if e[0] == "mcall" and e[1] == ("id", "slice") and e[2] == "len" and not e[3]:
+            return "slice_len", ("u", 64)
+        if e[0] == "mcall" and e[1] == ("id", "self"):
+            if e[2] != "index" or len(e[3]) != 1:
+                raise TranslateError("generator method %s" % e[2])
+            a, _ = self.expr(e[3][0], ("u", 64))
+            self.tmp = getattr(self, "tmp", 0) + 1
+            r = "d%d" % self.tmp
+            self.lines.append("let (%s, rng) := index rng %s" % (r, a))
+            return r, ("u", 64)
+        return EffFn.expr(self, e, expect)
+
+    def run(self, stmts):
+        for s in stmts:
+            if s[0] == "expr" and self.is_store(s[1]) and len(s[1][3]) == 2:
+                a, _ = self.expr(s[1][3][0], ("u", 64))
+                b, _ = self.expr(s[1][3][1], ("u", 64))
+                self.lines.append("let log := log ++ [(%s, %s)]" % (a, b))
+            else:
+                EffFn.run(self, [s])
+
+    def lean(self):
+        self.lines, self.result, self.aux = [], self.tail, []
+        self.lines.append("let log : %s := []" % self.LOGTY)
+        self.lines.append("let diverged := false")
+        self.run(self.stmts)
+        if self.result is not None:
+            raise TranslateError("a result value")
+        body = "\n".join("  " + l for l in self.lines + ["(log, rng, diverged)"])
+        return "".join(a + "\n" for a in self.aux) + (
+            "def %s {σ : Type} (index : σ → BitVec 64 → BitVec 64 × σ) (rng : σ) (slice_len : BitVec 64) : %s × σ × Bool :=\n%s\n" % (self.name, self.LOGTY, body))
+
+
+def rewrite_ranges(toks):
+    """`f(A..B)` -> `f(A, B)` for a call whose only argument is a half-open range (the expression parser has no range syntax)"""
+    out, i = [], 0
+    while i < len(toks):
+        t = toks[i]
+        if t == ("op", "(") and out and out[-1][0] == "id":
+            j = matching(toks, i)
+            inner = toks[i + 1:j]
+            depth, cut = 0, None
+            for k, x in enumerate(inner):
+                if x[0] == "op" and x[1] in ("(", "[", "{"):
+                    depth += 1
+                elif x[0] == "op" and x[1] in (")", "]", "}"):
+                    depth -= 1
+                elif depth == 0 and x == ("op", ".."):
+                    cut = k
+            if cut is not None and 0 < cut < len(inner) - 1:
+                out += [("op", "(")] + rewrite_ranges(inner[:cut]) + [("op", ",")] + rewrite_ranges(inner[cut + 1:]) + [("op", ")")]
+                i = j + 1
+                continue
+        out.append(t)
+        i += 1
+    return out
+
+
+class PShufFn(ShufFn):
+    """`Random::partial_shuffle`: + the parameter `n` (a `mut` usize), `usize::min`, `self.range(a..b)` as a draw from the abstract generator
+    (`range : σ → BitVec 64 → BitVec 64 → BitVec 64 × σ`), and `for i in 0..n` over usize as a fold over `List.range' 0 n.toNat` with the loop
+    variable `BitVec.ofNat 64 i` (the body is a definition of its own)."""
+    WPARAMS = "{σ : Type} (range : σ → BitVec 64 → BitVec 64 → BitVec 64 × σ)"
+    WARGS = "range"
+
+    def __init__(self, name, body_toks):
+        ShufFn.__init__(self, name, rewrite_ranges(body_toks))
+        self.env["n"] = ("var", "n", ("u", 64))
+        self.nfor = 0
+
+    def typed(self, e):
+        if e[0] == "call" and e[1] in ("usize::min", "usize::max"):
+            return ("u", 64)
+        return ShufFn.typed(self, e)
+
+    def expr(self, e, expect=None):
+        if e[0] == "call" and e[1] in ("usize::min", "usize::max") and len(e[2]) == 2:
+            a, _ = self.expr(e[2][0], ("u", 64))
+            b, _ = self.expr(e[2][1], ("u", 64))
+            return "(if %s %s %s then %s else %s)" % (a, "≤" if e[1].endswith("min") else "≥", b, a, b), ("u", 64)
+        if e[0] == "mcall" and e[1] == ("id", "self"):
+            if e[2] != "range" or len(e[3]) != 2:
+                raise TranslateError("generator method %s" % e[2])
+            a, _ = self.expr(e[3][0], ("u", 64))
+            b, _ = self.expr(e[3][1], ("u", 64))
+            self.tmp = getattr(self, "tmp", 0) + 1
+            r = "d%d" % self.tmp
+            self.lines.append("let (%s, rng) := range rng %s %s" % (r, a, b))
+            return r, ("u", 64)
+        return ShufFn.expr(self, e, expect)
+
+    def targets(self, stmts, acc):
+        # a `for` changes what its body changes
+        def unfor(ss):
+            out = []
+            for s in ss:
+                if s[0] == "for":
+                    out += unfor(s[4][1])
+                elif s[0] == "if":
+                    out.append(("if", s[1], ("block", unfor(s[2][1]), s[2][2] if len(s[2]) > 2 else None), ("block", unfor(s[3][1]), None) if s[3] else None))
+                else:
+                    out.append(s)
+            return out
+        return ShufFn.targets(self, unfor(stmts), acc)
+
+    def run(self, stmts):
+        for s in stmts:
+            if s[0] == "for":
+                var, lo, hi, body = s[1], s[2], s[3], s[4]
+                if lo != ("num", 0):
+                    raise TranslateError("for loop not from 0")
+                names = [n for n in self.targets([s], []) if n in self.env]
+                st, tys = self.state_names(names), self.state_types(names)
+                tup = "(%s)" % ", ".join(st)
+                h, _ = self.expr(hi, ("u", 64))
+                saved_env, saved_lines = dict(self.env), self.lines
+                self.env[var] = ("var", var, ("u", 64))
+                self.lines = []
+                self.run(body[1])
+                inner = self.lines
+                self.lines, self.env = saved_lines, saved_env
+                text = "\n".join(inner)
+                free = [(v[1], lean_ty(v[2])) for nme, v in saved_env.items()
+                        if v[0] == "var" and v[2][0] == "u" and v[1] not in st and re.search(r"\b%s\b" % re.escape(v[1]), text)]
+                if re.search(r"\bslice_len\b", text):
+                    free.append(("slice_len", "BitVec 64"))
+                self.nfor += 1
+                bname = "%s_for%d" % (self.name, self.nfor)
+                self.aux.append("def %s %s %s (st : %s) (%s_nat : Nat) : %s :=\n  let %s := st\n  let %s := BitVec.ofNat 64 %s_nat\n%s\n  %s\n" % (
+                    bname, self.WPARAMS, " ".join("(%s : %s)" % f for f in free), " × ".join(tys), var, " × ".join(tys), tup, var, var,
+                    "\n".join("  " + l for l in inner), tup))
+                self.lines.append("let %s := (List.range' 0 (%s).toNat).foldl (%s %s %s) %s" % (tup, h, bname, self.WARGS, " ".join(f[0] for f in free), tup))
+            else:
+                ShufFn.run(self, [s])
+
+    def lean(self):
+        self.lines, self.result, self.aux = [], self.tail, []
+        self.lines.append("let log : %s := []" % self.LOGTY)
+        self.run(self.stmts)
+        if self.result is not None:
+            raise TranslateError("a result value")
+        body = "\n".join("  " + l for l in self.lines + ["(log, rng)"])
+        return "".join(a + "\n" for a in self.aux) + (
+            "def %s %s (rng : σ) (slice_len : BitVec 64) (n : BitVec 64) : %s × σ :=\n%s\n" % (self.name, self.WPARAMS, self.LOGTY, body))
+
+
+def random_partial_shuffle(repo):
+    raw, _ = parse_fns(open(os.path.join(repo, "src/random.rs")).read())
+    cands = [f for f in raw.get("partial_shuffle", []) if f[0] and f[0][0][0] == "self"]
+    if len(cands) != 1:
+        raise TranslateError("src/random.rs: partial_shuffle not found (or not unique)")
+    params, ret, body = cands[0]
+    if [p[0] for p in params] != ["self", "slice", "n"] or ret is not None:
+        raise TranslateError("partial_shuffle: signature %r" % ([p[0] for p in params],))
+    return "namespace random\n" + PShufFn("partial_shuffle", body).lean() + "end random\n"
+
+
+def random_shuffle(repo):
+    raw, _ = parse_fns(open(os.path.join(repo, "src/random.rs")).read())
+    cands = [f for f in raw.get("shuffle", []) if f[0] and f[0][0][0] == "self"]
+    if len(cands) != 1:
+        raise TranslateError("src/random.rs: shuffle not found (or not unique)")
+    params, ret, body = cands[0]
+    if [p[0] for p in params] != ["self", "slice"] or ret is not None:
+        raise TranslateError("shuffle: signature %r" % ([p[0] for p in params],))
+    return "namespace random\n" + ShufFn("shuffle", body).lean() + "end random\n"
+
+
+def generate_system(repo, out_dir, write):
+    head = ("/- GENERATED by tools/extract_effect.py from src/rng/system.rs (next_u32, next_u64) on every run - do not edit. -/\n"
+            "import Urandom.Model.Effect\nset_option linter.unusedVariables false\nnamespace Urandom.Generated.Effect\nopen Urandom\n\n")
+    try:
+        text = head + system_methods(repo) + "\nend Urandom.Generated.Effect\n"
+    except Exception as e:
+        msg = ("%s: %s" % (type(e).__name__, e)).replace("-/", "- /")
+        text = ("/- tools/extract_effect.py could not translate the current source: %s -/\n"
+                "namespace Urandom.Generated.Effect\ndef translation_failed_EffectSystem : Nat := translation_of_the_current_source_failed\nend Urandom.Generated.Effect\n" % msg)
+    write(os.path.join(out_dir, "EffectSystem.lean"), text)
+
+
+def random_index(repo):
+    """`Random::index(len)`: the body must be `distr::UniformInt::constant(<base>, <range>).sample(self)`; the two arguments become
+    `index_args len = (base, range)` (the sampler itself is translated by extract_scalar.py: `sample_*_usize`)."""
+    raw, _ = parse_fns(open(os.path.join(repo, "src/random.rs")).read())
+    cands = [f for f in raw.get("index", []) if f[0] and f[0][0][0] == "self"]
+    if len(cands) != 1:
+        raise TranslateError("src/random.rs: index not found (or not unique)")
+    params, ret, body = cands[0]
+    if [p[0] for p in params] != ["self", "len"]:
+        raise TranslateError("index: signature %r" % ([p[0] for p in params],))
+    stmts, tail = EP(body).body()
+    if stmts or not tail:
+        raise TranslateError("index: the body is not one expression")
+    if not (tail[0] == "mcall" and tail[2] == "sample" and tail[3] == [("id", "self")] and tail[1][0] == "call"
+            and tail[1][1].endswith("UniformInt::constant") and len(tail[1][2]) == 2):
+        raise TranslateError("index: the body is not UniformInt::constant(a, b).sample(self)")
+    fn = EffFn("Urandom.Generated.Effect.random", "index_args", [], "\0none", "\0none")
+    fn.env = {"len": ("var", "len", ("u", 64))}
+    fn.lines = []
+    a, _ = fn.expr(tail[1][2][0], ("u", 64))
+    b, _ = fn.expr(tail[1][2][1], ("u", 64))
+    if fn.lines:
+        raise TranslateError("index: arguments with effects")
+    return "namespace random\ndef index_args (len : BitVec 64) : BitVec 64 × BitVec 64 := (%s, %s)\nend random\n" % (a, b)
+
+
+def generate_shuffle(repo, out_dir, write):
+    head = ("/- GENERATED by tools/extract_effect.py from src/random.rs (shuffle) on every run - do not edit. -/\n"
+            "set_option linter.unusedVariables false\nnamespace Urandom.Generated.Effect\n\n")
+    try:
+        text = head + random_shuffle(repo) + "\n" + random_partial_shuffle(repo) + "\n" + random_index(repo) + "\nend Urandom.Generated.Effect\n"
+    except Exception as e:
+        msg = ("%s: %s" % (type(e).__name__, e)).replace("-/", "- /")
+        text = ("/- tools/extract_effect.py could not translate the current source: %s -/\n"
+                "namespace Urandom.Generated.Effect\ndef translation_failed_EffectShuffle : Nat := translation_of_the_current_source_failed\nend Urandom.Generated.Effect\n" % msg)
+    write(os.path.join(out_dir, "EffectShuffle.lean"), text)
+
+
+def generate_block_fill(repo, out_dir, write):
+    head = ("/- GENERATED by tools/extract_effect.py from src/rng/block.rs (fill_bytes) on every run - do not edit. -/\n"
+            "import Urandom.Model.Effect\nset_option linter.unusedVariables false\nnamespace Urandom.Generated.Effect\nopen Urandom\n\n")
+    try:
+        text = head + block_fill(repo) + "\nend Urandom.Generated.Effect\n"
+    except Exception as e:
+        msg = ("%s: %s" % (type(e).__name__, e)).replace("-/", "- /")
+        text = ("/- tools/extract_effect.py could not translate the current source: %s -/\n"
+                "namespace Urandom.Generated.Effect\ndef translation_failed_EffectBlockFill : Nat := translation_of_the_current_source_failed\nend Urandom.Generated.Effect\n" % msg)
+    write(os.path.join(out_dir, "EffectBlockFill.lean"), text)
+
+
+if __name__ == "__main__":
+    print(block_fill(os.environ.get("VERIF_REPO", "/repo")))
+    print(system_methods(os.environ.get("VERIF_REPO", "/repo")))
+    print(random_shuffle(os.environ.get("VERIF_REPO", "/repo")))
+    print(random_partial_shuffle(os.environ.get("VERIF_REPO", "/repo")))
